@@ -171,6 +171,20 @@ func (ev *evaluator) compute(f *frame, in ssa.Instruction, pred *ssa.BasicBlock,
 		case token.MUL:
 			// load: known only if the location was stored to on this path
 			addr := f.syms.Sym(x.X)
+			// element of an array/slice at an index that is a known constant on this
+			// path (loop counter): the element may be an atom of its own
+			if ia, isIA := x.X.(*ssa.IndexAddr); isIA {
+				if k := ev.val(f, ia.Index); k != absUnknown && !strings.HasPrefix(k, "sym:") {
+					if i, _, isInt := parseAbsInt(k); isInt {
+						dyn := fmt.Sprintf("%s[%d]", f.syms.Sym(ia.X), i)
+						if a, ok := ev.atomFor(f.fn, dyn); ok {
+							f.env[x] = a
+							return
+						}
+						addr = dyn
+					}
+				}
+			}
 			if r, ok := out.Effects["@"+FuncName(f.fn)+"@"+addr]; ok {
 				f.env[x] = r
 			}
@@ -212,6 +226,19 @@ func (ev *evaluator) compute(f *frame, in ssa.Instruction, pred *ssa.BasicBlock,
 			f.env[x] = strconv.FormatInt(ai&bi, 10) + at
 		case token.OR:
 			f.env[x] = strconv.FormatInt(ai|bi, 10) + at
+		}
+	case *ssa.Index:
+		// element of an array VALUE that was loaded as a whole (range over an array
+		// field) at an index known on this path
+		if ld, isLoad := x.X.(*ssa.UnOp); isLoad && ld.Op == token.MUL {
+			if k := ev.val(f, x.Index); k != absUnknown && !strings.HasPrefix(k, "sym:") {
+				if i, _, isInt := parseAbsInt(k); isInt {
+					dyn := fmt.Sprintf("%s[%d]", f.syms.Sym(ld.X), i)
+					if a, ok := ev.atomFor(f.fn, dyn); ok {
+						f.env[x] = a
+					}
+				}
+			}
 		}
 	case *ssa.ChangeType:
 		f.env[x] = ev.val(f, x.X)
